@@ -4,6 +4,7 @@
 //	vh_conc run -plan p.json    run one stress / replay plan in THIS process (a panic of the real
 //	                            code kills it: the caller reads exit status and stderr)
 //	vh_conc indexer -plan p.json  the same for the indexer service scenarios
+//	vh_conc buslock -plan p.json  the directed lock-order scenario on the real event bus
 package main
 
 import (
@@ -28,6 +29,25 @@ func main() {
 		}
 		fmt.Println("hooks H3 missing")
 		os.Exit(3)
+	case "buslock":
+		fs := flag.NewFlagSet("buslock", flag.ExitOnError)
+		pf := fs.String("plan", "", "plan file")
+		_ = fs.Parse(os.Args[2:])
+		bz, err := os.ReadFile(*pf)
+		if err != nil {
+			fmt.Fprintln(os.Stderr, err)
+			os.Exit(2)
+		}
+		var p conc.BusLockPlan
+		if err := json.Unmarshal(bz, &p); err != nil {
+			fmt.Fprintln(os.Stderr, err)
+			os.Exit(2)
+		}
+		if err := conc.RunBusLock(&p); err != nil {
+			fmt.Fprintln(os.Stderr, "harness error:", err)
+			os.Exit(2)
+		}
+		os.Exit(0)
 	case "run", "indexer":
 		fs := flag.NewFlagSet(os.Args[1], flag.ExitOnError)
 		pf := fs.String("plan", "", "plan file")
